@@ -19,7 +19,8 @@ class Check:
     def configs(self, ctx):
         if ctx.tier == "quick":
             return list(QUICK_CFGS)
-        return ["%s-%s-O2" % (i, s) for i in ALL_ISAS for s in ("14", "17")]
+        # every ISA under C++14, the two wide ones also under C++17
+        return ["%s-14-O2" % i for i in ALL_ISAS] + ["avx2-17-O2", "avx512-17-O2"]
 
     def model_checks(self, ctx):
         pass
